@@ -700,6 +700,8 @@ def c20_stream_rows(ctx):
     need(nos, 20000, 'C20 ostream rows'); need(nis, 20000, 'C20 istream rows'); need(nfs, 2000, 'C20 mpf istream rows')
     for mm in ctx.models:
         if mm['name'] == 'CxxStreamModel': mm['states'] = max(mm['states'], nos + nis + nfs); mm['transitions'] = mm['states']
+    k = int(os.environ.get('C20_ROW_SAMPLE', '1') or 1)          # development aid (mutant demonstrations): every k-th row only
+    if k > 1: rows = rows[::k]; ctx.notes.append(f'C20_ROW_SAMPLE={k}: only every {k}-th stream row is replayed')
     p = os.path.join(ctx.scratch, 'stream.rows'); open(p, 'w').write('\n'.join(rows) + '\n')
     ctx.notes.append(f'stream rows enumerated by TLC: {nos} insertion states x values, {nis} integer extraction inputs x states, {nfs} float extraction inputs')
     return p
@@ -719,7 +721,7 @@ def c20_mpf_units(ctx, gen):
     need(n, 3000, 'C20 mpf_class trees')
     for mm in ctx.models:
         if mm['name'] == 'CxxExpr-f': mm['states'] = max(mm['states'], n); mm['transitions'] = mm['states']
-    rc, out = sh(['python3', os.path.join(VERIF, 'lib/cxxgen_f.py'), p, gen, str(ctx.seed), '1000' if q else '0'], timeout=600)
+    rc, out = sh(['python3', os.path.join(VERIF, 'lib/cxxgen_f.py'), p, gen, str(ctx.seed), os.environ.get('C20_MPF_MAX') or ('1000' if q else '0')], timeout=600)
     if rc != 0: raise Machinery('cxxgen_f failed: ' + out[-2000:])
     ctx.notes.append('mpf generator: ' + out.strip())
     return sorted(glob.glob(os.path.join(gen, 'fu*.cc'))) + [os.path.join(gen, 'fmain.cc')]
